@@ -136,6 +136,146 @@ func (vc *VC) ownsLock(addr ssa.Value) bool {
 	return false
 }
 
+// lockStep is one step of a path from a method's receiver to a mutex: field index, preceded by a load when the field
+// reached so far holds a pointer (embedded *T).
+type lockStep struct {
+	field int
+	deref bool // load the pointer stored at the location reached so far before taking the field
+}
+
+// ownLockPaths summarises which mutexes, reached from its own receiver, a method takes (Lock or RLock) -- directly or
+// through methods it calls on the same receiver. Purely syntactic (over the callee's SSA): used where a method under
+// contract calls another method of its receiver BY CONTRACT, so that the callee's critical section is not forgotten by
+// the lock discipline of the caller (obligation lock.atomic).
+func (w *World) ownLockPaths(f *ssa.Function, seen map[*ssa.Function]bool) [][]lockStep {
+	if f == nil || f.Signature.Recv() == nil || len(f.Params) == 0 || len(f.Blocks) == 0 || seen[f] {
+		return nil
+	}
+	seen[f] = true
+	var res [][]lockStep
+	add := func(p []lockStep) {
+		for _, q := range res {
+			if fmt.Sprint(q) == fmt.Sprint(p) {
+				return
+			}
+		}
+		res = append(res, p)
+	}
+	for _, b := range f.Blocks {
+		for _, in := range b.Instrs {
+			var cc *ssa.CallCommon
+			switch y := in.(type) {
+			case *ssa.Call:
+				cc = y.Common()
+			case *ssa.Defer:
+				cc = y.Common()
+			}
+			if cc == nil || cc.StaticCallee() == nil || len(cc.Args) == 0 {
+				continue
+			}
+			g := cc.StaticCallee()
+			switch g.String() {
+			case "(*sync.Mutex).Lock", "(*sync.RWMutex).Lock", "(*sync.RWMutex).RLock":
+				// walk the address back to the receiver
+				var rev []lockStep
+				v := cc.Args[0]
+				ok := false
+				for {
+					if fa, isFA := v.(*ssa.FieldAddr); isFA {
+						st := lockStep{field: fa.Field}
+						v = fa.X
+						if u, isU := v.(*ssa.UnOp); isU && u.Op == token.MUL {
+							if _, inner := u.X.(*ssa.FieldAddr); inner {
+								st.deref = true
+								v = u.X
+							}
+						}
+						rev = append(rev, st)
+						continue
+					}
+					ok = v == ssa.Value(f.Params[0])
+					break
+				}
+				if ok && len(rev) > 0 {
+					p := make([]lockStep, len(rev))
+					for i := range rev {
+						p[len(rev)-1-i] = rev[i]
+					}
+					add(p)
+				}
+			default:
+				if g.Signature.Recv() != nil && cc.Args[0] == ssa.Value(f.Params[0]) {
+					for _, p := range w.ownLockPaths(g, seen) {
+						add(p)
+					}
+				}
+			}
+		}
+	}
+	return res
+}
+
+// calleeLocks: a method of the verified method's own receiver (or of something reached from it by a field path) is
+// called by contract. For every mutex the callee takes (summary above): the caller does not hold it (assumed: Go's
+// mutexes are not reentrant, the call would never return), must not have released it before (lock.atomic, one
+// critical section per operation), and has released it afterwards.
+func (vc *VC) calleeLocks(f *ssa.Function, c *ssa.CallCommon, st *State) {
+	if len(vc.w.guards) == 0 || f.Signature.Recv() == nil || len(c.Args) == 0 || !vc.ownsLock(c.Args[0]) {
+		return
+	}
+	if _, isPtr := c.Args[0].Type().Underlying().(*types.Pointer); !isPtr {
+		return
+	}
+	paths := vc.w.ownLockPaths(f, map[*ssa.Function]bool{})
+	if len(paths) == 0 {
+		return
+	}
+	reach := vc.reach[vc.curBlock]
+	for _, p := range paths {
+		l := vc.locOfPointer(c.Args[0])
+		okp := true
+		for _, s := range p {
+			if l.kind != lStruct {
+				okp = false
+				break
+			}
+			if _, isS := isStruct(l.typ); !isS {
+				okp = false
+				break
+			}
+			l = vc.fieldLoc(l, s.field)
+			if s.deref {
+				// the field holds a pointer to a struct: continue from the struct it points to
+				pt, isP := l.typ.Underlying().(*types.Pointer)
+				if !isP {
+					okp = false
+					break
+				}
+				l = vc.locOfRef(vc.loadRoot(st, l), pt.Elem())
+			}
+		}
+		if !okp || l.kind != lStruct {
+			continue
+		}
+		a := l.key
+		w := vc.heap(st, "GH.lkW", "(Array Int Bool)")
+		r := vc.heap(st, "GH.lkR", "(Array Int Int)")
+		rel := vc.heap(st, "GH.lkRel", "(Array Int Bool)")
+		if !vc.lkRelInit {
+			vc.lkRelInit = true
+			vc.d.axioms = append(vc.d.axioms, "(assert (forall ((a!l Int)) (! (not (select GH.lkRel!0 a!l)) :pattern ((select GH.lkRel!0 a!l)))))")
+		}
+		// Go's mutexes are not reentrant: were the mutex held here, the callee would block forever; so past the call
+		// it was not held (partial correctness, the same treatment as a direct Lock)
+		vc.assumeIf(reach, fmt.Sprintf("(and (not (select %s %s)) (<= (select %s %s) 0))", w, a, r, a))
+		if !vc.spec.LocksHeld {
+			vc.oblige("lock.atomic", "", reach, fmt.Sprintf("(not (select %s %s))", rel, a),
+				"the method has not already released the lock of its receiver that the called method takes (one critical section per operation): "+f.Name())
+		}
+		vc.setHeap(st, "GH.lkRel", "(Array Int Bool)", fmt.Sprintf("(store %s %s true)", rel, a))
+	}
+}
+
 func (vc *VC) execCall(x *ssa.Call, c *ssa.CallCommon, st *State, holder ssa.Value) {
 	if vc.lockOp(c, st) {
 		return
@@ -228,6 +368,7 @@ func (vc *VC) execCall(x *ssa.Call, c *ssa.CallCommon, st *State, holder ssa.Val
 				calleeName = calleeName[i+1:]
 			}
 			pureKey = funcKey(tf)
+			vc.noteCallee(tf, tspec)
 			break
 		}
 		recv = &r
@@ -252,6 +393,8 @@ func (vc *VC) execCall(x *ssa.Call, c *ssa.CallCommon, st *State, holder ssa.Val
 			}
 			vc.fail("no contract for callee %s", funcKey(f))
 		}
+		vc.noteCallee(f, spec)
+		vc.calleeLocks(f, c, st)
 		pureKey = funcKey(f)
 		args := c.Args
 		if f.Signature.Recv() != nil {
@@ -435,6 +578,29 @@ func (vc *VC) funcValueKey(v ssa.Value) (key, owner string, ownerT types.Type) {
 }
 
 func (vc *VC) noteTrusted(s string) { vc.trustedUsed[s] = true }
+
+// noteCallee records, for the evidence, that the contract of a callee which this claim does not itself check was
+// relied on at a call site (modular verification: the caller is checked against the callee's contract, which is
+// discharged where the callee is under contract -- under another claim, or nowhere: then it is an assumption).
+func (vc *VC) noteCallee(f *ssa.Function, spec *FuncSpec) {
+	if spec == nil || spec.Trusted || len(vc.w.claimed) == 0 || f == nil {
+		return
+	}
+	g := f
+	for g.Parent() != nil {
+		g = g.Parent()
+	}
+	key := funcKey(g)
+	if vc.w.claimed[key] {
+		return
+	}
+	short := strings.TrimPrefix(key, modPrefix)
+	if ids := vc.w.provedBy[key]; len(ids) > 0 {
+		vc.noteTrusted("callee contract relied on, discharged under claim " + strings.Join(ids, ",") + " (not in this claim's function list): " + short)
+	} else {
+		vc.noteTrusted("callee contract ASSUMED (relied on at a call site, the callee is in no claim's function list): " + short)
+	}
+}
 
 func (vc *VC) specPkg(spec *FuncSpec) *types.Package {
 	if tp, ok := vc.w.tpkgs[spec.Pkg]; ok && tp.Types != nil {
